@@ -47,7 +47,7 @@ MANIFEST = {
             "The user guide is taken as the specification.",
     "technique": "symbolic evaluation of builder code to expression trees + "
                  "documentation parsing + tree comparison; decision-table "
-                 "extraction for the bound rule",
+                 "extraction for the bound rule + refusal-weakening check against the reviewed guard snapshot",
 }
 BI = "src/psyclone/domain/lfric/lfric_builtins.py"
 DOC = "doc/user_guide/dynamo0p3.rst"
